@@ -19,9 +19,12 @@ for d in sorted(os.listdir(root)):
     if r.returncode!=0:
         rows.append((d,prop,'PATCH-DOES-NOT-APPLY','',0)); meta['detected_by']={'check':prop,'result':'patch no longer applies to /repo HEAD'}; json.dump(meta,open(mp,'w'),indent=1); continue
     t=time.time()
+    evp=f'/verif/evidence/{prop}.json'
+    evb=open(evp).read() if os.path.exists(evp) else None
     try:
         c=sh('/verif/check.sh',prop,'quick')
     finally:
+        if evb is not None: open(evp,'w').write(evb)  # evidence from a seeded tree is never kept
         sh('git','-C','/repo','apply','-R',patch); sh('git','-C','/repo','checkout','--','.')
     wall=time.time()-t
     viol=[l for l in c.stdout.splitlines() if l.startswith('violation:')]
